@@ -765,9 +765,11 @@ def gen_item_valid(it, rng, depth):
 
 
 LONG_STRINGS = ["\u5b57" * 22, "\u043a\u043b\u044e\u0447\u2192" * 6, "a\u00e9" * 40, "x" * 63 + "\u20ac" + "tail", "x" * 62 + "\U0001f600" + "y" * 70,
-                "\u00e9" * 31 + "ab\u20ac" * 5, "0123456789" * 13, "\u20ac" * 43 + "a", "0123456789" * 110, "long \u00e9 " * 30]
+                "\u00e9" * 31 + "ab\u20ac" * 5, "0123456789" * 13, "\u20ac" * 43 + "a", "0123456789" * 110, "long \u00e9 " * 30,
+                # three shifts of a run of 3-byte characters: every byte offset from 1 to 300 falls inside a character in two of them
+                "\u20ac" * 100, "a" + "\u20ac" * 100, "ab" + "\u20ac" * 100]
 LONG_LIST = [{"i": str(i)} for i in range(70)]
-WRONG = [None, True, LONG_STRINGS[0], LONG_STRINGS[1], LONG_STRINGS[8], LONG_LIST, "ctl\u0008\u000c\u001b\u007f\u00ad\u200b", {"i": "1"}, {"i": "1000"}, {"n": "-3"}, {"f": "3ff8000000000000"}, "str", [], [{"i": "1"}], {"m": []}, {"m": [["a", None]]},
+WRONG = [None, True, LONG_STRINGS[0], LONG_STRINGS[1], LONG_STRINGS[8], LONG_STRINGS[10], LONG_STRINGS[11], LONG_STRINGS[12], LONG_LIST, "ctl\u0008\u000c\u001b\u007f\u00ad\u200b", {"i": "1"}, {"i": "1000"}, {"n": "-3"}, {"f": "3ff8000000000000"}, "str", [], [{"i": "1"}], {"m": []}, {"m": [["a", None]]},
          {"i": "18446744073709551615"}, {"n": "-9223372036854775808"}, "!bad", {"i": "3"}, [{"i": "1"}, {"i": "2"}, {"i": "3"}],
          {"f": "7ff8000000000000"}, [{"f": "7ff0000000000000"}, {"i": "1"}, {"f": "fff0000000000000"}], {"m": [["a", {"f": "7ff8000000000000"}], ["b", [{"f": "7ff0000000000000"}]]]}]
 
